@@ -9,6 +9,7 @@ from engine import pat
 from engine.util import own_nodes, calls_with_nodes, where, with_exprs
 
 RULES = {
+    "R-08.8": "the sizes reserved before rendering are those of what is rendered: the placeholder MAC of use_tsig has the size of the algorithm the TSIG template names (one expression for both), and make_response hands the requester's advertised payload (query.payload) to use_edns as request_payload - the default limit of the response",
     "R-08.7": "room for the padding octets themselves: either the renderer bounds the padding it adds by the space left under the limit, or the reserve made before the sections are rendered grows with the block size - otherwise a truncated message plus its padding can exceed the limit and TooBig escapes although truncation was preferred",
     "R-08.6": "the effective limit: max_size 0 means the requester's advertised payload (request_payload) when known, else 65535, and is then clamped to [512, 65535] before the renderer is built; the OPT reserve counts every option the renderer will write (no option is skipped)",
     "R-08.1": "every write to the renderer's output happens inside `with self._track_size()` (header back-patches inside _temporarily_seek_to excepted)",
@@ -208,6 +209,28 @@ def run(model, rep, tier):
     rep.check(bounded or reserved, "R-08.7", ao7.qualname, where(ao7, pad_arm[0] if pad_arm else ao7.node), "the padding is bounded by the room left / reserved in advance",
               "the padding octets are neither reserved before the sections are rendered (the OPT reserve adds only the 4-octet option header under `if self.pad`) nor bounded by self.max_size in add_opt: "
               "after truncation the padded OPT can be up to block-1 octets larger than the room that was kept, and add_rrset raises TooBig although prefer_truncation was given", stmt="padding-bounded")
+    ut = model.func("dns.message.Message.use_tsig")
+    mk = [c for c in ast.walk(ut.node) if isinstance(c, ast.Call) and src(c.func) == "self._make_tsig"]
+    if len(mk) != 1 or len(mk[0].args) < 5:
+        rep.blind("R-08.8", ut.qualname, where(ut, ut.node), "the `self._make_tsig(keyname, algorithm, time, fudge, mac, ...)` call was not found", stmt="placeholder-mac")
+    else:
+        alg = src(mk[0].args[1])
+        sizes = [x for x in ast.walk(mk[0].args[4]) if isinstance(x, ast.Subscript) and src(x.value) == "dns.tsig.mac_sizes"]
+        rep.check(len(sizes) == 1 and src(sizes[0].slice) == alg, "R-08.8", ut.qualname, where(ut, mk[0]), f"placeholder MAC sized by mac_sizes[{alg}], the algorithm of the template",
+                  f"the TSIG template names algorithm `{alg}` but its placeholder MAC is sized by `{src(sizes[0].slice) if sizes else '?'}`: for a key of another algorithm the TSIG reserve and the padding "
+                  "arithmetic use the wrong MAC length (TooBig escapes near the limit; the padded length is no multiple of the block)", stmt="placeholder-mac")
+    mr = model.func("dns.message.make_response")
+    ue = [c for c in ast.walk(mr.node) if isinstance(c, ast.Call) and src(c.func) == "response.use_edns"]
+    uef = model.func("dns.message.Message.use_edns")
+    ps = [p_ for p_ in uef.params() if p_ != "self"]
+    if len(ue) != 1 or "request_payload" not in ps:
+        rep.blind("R-08.8", mr.qualname, where(mr, mr.node), "the `response.use_edns(...)` call / the request_payload parameter was not found", stmt="request-payload")
+    else:
+        i_ = ps.index("request_payload")
+        got = ue[0].args[i_] if len(ue[0].args) > i_ else next((k.value for k in ue[0].keywords if k.arg == "request_payload"), None)
+        rep.check(got is not None and src(got) == "query.payload", "R-08.8", mr.qualname, where(mr, ue[0]), "the response remembers the requester's payload (request_payload=query.payload)",
+                  f"make_response passes {('`' + src(got) + '`') if got is not None else 'nothing'} as request_payload: the response's default size limit becomes our own payload (or 65535) instead of what the "
+                  "requester advertised, so an over-long response is rendered whole - no TooBig, no truncation, no TC", stmt="request-payload")
     ct = pat.canon_func(model.func("dns.message.Message._compute_tsig_reserve"), ["__f = io.BytesIO()"])
     t = " ".join(src(ct.node).split())
     rep.check("self.tsig.to_wire(f)" in t and "return len(f.getvalue())" in t, "R-08.4", ct.qualname, where(ct, ct.node), "TSIG reserve = uncompressed size of the TSIG RR", "TSIG reserve is no longer the uncompressed size", stmt="tsig-reserve")
@@ -245,6 +268,12 @@ def run(model, rep, tier):
 
 
 WITNESSES = [
+    {"id": "c08-placeholder-mac-from-argument", "rule": "R-08.8", "file": "dns/message.py", "expect": "fires",
+     "old": "            b\"\\x00\" * dns.tsig.mac_sizes[self.keyring.algorithm],", "new": "            b\"\\x00\" * dns.tsig.mac_sizes[algorithm],"},
+    {"id": "c08-make-response-drops-request-payload", "rule": "R-08.8", "file": "dns/message.py", "expect": "fires",
+     "old": "        response.use_edns(0, 0, our_payload, query.payload, pad=pad)", "new": "        response.use_edns(0, 0, payload=our_payload, pad=pad)"},
+    {"id": "c08-twin-make-response-keywords", "rule": "R-08.8", "file": "dns/message.py", "expect": "silent",
+     "old": "        response.use_edns(0, 0, our_payload, query.payload, pad=pad)", "new": "        response.use_edns(0, 0, payload=our_payload, request_payload=query.payload, pad=pad)"},
     {"id": "c08-default-limit-from-own-payload", "rule": "R-08.6", "file": "dns/message.py", "expect": "fires",
      "old": "            if self.request_payload != 0:\n                max_size = self.request_payload", "new": "            if self.payload != 0:\n                max_size = self.payload"},
     {"id": "c08-reserve-skips-existing-padding", "rule": "R-08.6", "file": "dns/message.py", "expect": "fires",
